@@ -8,6 +8,8 @@ import (
 	"fmt"
 	"math"
 	"math/rand"
+	"os"
+	"strings"
 	"sync"
 	"testing"
 	"time"
@@ -394,6 +396,9 @@ func TestC08(t *testing.T) {
 						for i := 0; i < 150; i++ {
 							if now, err := readInfo(pl, node); err == nil && usageEqual(now, before) != "" {
 								rec.Count("failed_commits_with_the_caller_gone_after_the_first_plugin_wrote", 1)
+								if os.Getenv("VERIF_C08_NODELAY") == "" {
+									time.Sleep(20 * time.Millisecond) // ... and its call has returned
+								}
 								break
 							}
 							time.Sleep(2 * time.Millisecond)
@@ -403,9 +408,22 @@ func TestC08(t *testing.T) {
 					}
 				}
 			}
+			// the cancellation can still catch the first plugin's own write in flight (applied by the store, reported as
+			// failed to the plugin): whether that write happened is unknowable to the manager, no property covers it,
+			// and the history ends there without a verdict
+			interrupted := func(err error) bool {
+				if op.CallerGone && err != nil && strings.Contains(err.Error(), context.Canceled.Error()) {
+					rec.Count("failed_commits_with_the_caller_gone_whose_first_write_was_interrupted_not_judged", 1)
+					return true
+				}
+				return false
+			}
 			switch op.Kind {
 			case "alloc", "rollback-alloc":
 				wr, _, err := m.Alloc(octx, node, op.Count, resOf(op.Req))
+				if interrupted(err) {
+					return
+				}
 				if err != nil {
 					rec.Count("refused/"+op.Kind, 1)
 					if op.SecondFails {
@@ -441,6 +459,9 @@ func TestC08(t *testing.T) {
 				}
 				idx := op.Pick % len(live)
 				_, delta, newRes, err := m.Realloc(octx, node, live[idx].res, resOf(op.Req))
+				if interrupted(err) {
+					return
+				}
 				if err != nil {
 					rec.Count("refused/"+op.Kind, 1)
 					if op.SecondFails {
@@ -477,6 +498,9 @@ func TestC08(t *testing.T) {
 				}
 				idx := op.Pick % len(live)
 				if _, _, err := m.SetNodeResourceUsage(octx, node, nil, nil, []resourcetypes.Resources{live[idx].res}, true, plugins.Decr); err != nil {
+					if interrupted(err) {
+						return
+					}
 					if op.SecondFails {
 						nontrivial = true
 						rec.Count("failed_commits/release", 1)
